@@ -28,10 +28,10 @@ ASSUMPTIONS = [
 BUDGET = {"quick": 60, "thorough": 500}
 ROUNDS = {"thorough": 10}
 FLOORS = {"loads": {"quick": 1500, "thorough": 15000}, "expected_reject": 400, "expected_accept": 400, "graph_walks": 300,
-          "sharing_updates": 150, "factory_round_trips": 60, "faults": 9}
+          "sharing_updates": 150, "factory_round_trips": 60, "faults": 10}
 
 FAULTS = ["none", "none", "dup-sibling", "dup-cousin", "dup-ancestor", "dup-toplevel", "dup-taxon-parameter", "dangling", "forward",
-          "range-missing", "range-ok", "comments", "ignored", "plate"]
+          "range-missing", "range-ok", "comments", "ignored", "plate", "nested-plate"]
 
 
 def cases(tier, seed):
@@ -350,6 +350,25 @@ def run_case(case):
         for i in range(k):
             je["distributions"].insert(pos + i, {"id": "pd.%d" % i, "type": "Distribution", "distribution": "torch.distributions.Normal",
                                                  "x": {"id": "px.%d" % i, "type": "Parameter", "tensor": [0.3]}, "parameters": {"loc": 0.0, "scale": 1.0}})
+        effective = expanded
+    elif fault == "nested-plate":
+        # a plate whose object template holds a list with another plate; also a second plate in the same list
+        k, m = int(rng.integers(1, 4)), int(rng.integers(1, 3))
+
+        def leaf(i, j):
+            return {"id": "nd.%s.%s" % (i, j), "type": "Distribution", "distribution": "torch.distributions.Normal", "x": {"id": "nx.%s.%s" % (i, j), "type": "Parameter", "tensor": [0.3]},
+                    "parameters": {"loc": 0.0, "scale": 1.0}}
+
+        inner = {"id": "inner", "type": "torchtree.Plate", "range": "0:%d" % m, "var": "j", "object": leaf("${i}", "${j}")}
+        outer = {"id": "outer", "type": "torchtree.Plate", "range": "0:%d" % k, "var": "i",
+                 "object": {"id": "nj.${i}", "type": "JointDistributionModel", "distributions": [inner]}}
+        second = {"id": "second", "type": "torchtree.Plate", "range": "0:2", "var": "i", "object": leaf("s", "${i}")}
+        jt = [d for t in top for d in walk_defs(t) if d["id"] == jid][0]
+        pos = int(rng.integers(len(jt["distributions"]) + 1))
+        jt["distributions"][pos:pos] = [outer, second]
+        expanded = copy.deepcopy(clean)
+        je = [d for t in expanded for d in walk_defs(t) if d["id"] == jid][0]
+        je["distributions"][pos:pos] = [{"id": "nj.%d" % i, "type": "JointDistributionModel", "distributions": [leaf(i, j) for j in range(m)]} for i in range(k)] + [leaf("s", 0), leaf("s", 1)]
         effective = expanded
     elif fault in ("comments", "ignored"):
         top = add_noise(top, rng, fault)
